@@ -36,11 +36,27 @@ Fresh(f) == [f |-> f, cfg |-> cfg, temp |-> temp]
 ScenarioC == /\ cfg["lut"] # "absent" /\ cfg["temperature"] # "absent"
              /\ cfg["medium"] \notin {"absent", "other"}
 
+\* the documented precedence of the Young's modulus scenarios (sec_emodulus_usage):
+\*   B  an explicit viscosity with medium "other" (or none): temperature key and
+\*      temperature feature are ignored
+\*   C  a known medium with a fixed temperature
+\*   A  a known medium with the per-event temperature feature
+\*   "conflict": a known medium together with an explicit viscosity (refused)
+Scenario(c, t) ==
+    IF c["lut"] = "absent" THEN "none"
+    ELSE IF c["viscosity"] # "absent" /\ c["medium"] \in {"absent", "other"} THEN "B"
+    ELSE IF c["medium"] \in {"absent", "other"} THEN "none"
+    ELSE IF c["viscosity"] # "absent" THEN "conflict"
+    ELSE IF c["temperature"] # "absent" THEN "C"
+    ELSE IF t # 0 THEN "A"
+    ELSE "none"
+
 AInit == /\ cfg \in Presets /\ temp \in {0} \cup TempVers
          /\ last = [a |-> "init"]
 
 Observe(obs) ==
     [cfg |-> cfg', temp |-> temp', observe |-> obs,
+     scenario |-> Scenario(cfg', temp'),
      cIgnoresTemp |-> (cfg'["lut"] # "absent" /\ cfg'["temperature"] # "absent"
                        /\ cfg'["medium"] \notin {"absent", "other"} /\ temp' # 0)]
 
